@@ -15,7 +15,7 @@ import SoyVerif.Ops.Json
 import SoyVerif.Ops.Msg
 import SoyVerif.Ops.JsGen
 import SoyVerif.Ops.JsSem
--- import SoyVerif.Ops.JsParse
+import SoyVerif.Ops.JsParse
 import SoyVerif.Ops.Lexer
 import SoyVerif.Ops.FileParser
 import SoyVerif.Ops.Eval
@@ -36,7 +36,7 @@ def allOps : List Op :=
   Ops.Msg.ops ++
   Ops.JsGen.ops ++
   Ops.JsSem.ops ++
-  -- Ops.JsParse.ops ++
+  Ops.JsParse.ops ++
   Ops.Lexer.ops ++
   Ops.Eval.ops ++
   Ops.EvalSpec.ops
